@@ -23,7 +23,7 @@ Your task: produce {k} DIFFERENT, realistic changes to the des source code (each
   (d) needs something specific to manifest — a particular interleaving or order of operations, a multi-step sequence, an unusual but legal input (boundary value, tie, wrap-around, prefix, empty case), a fault at a particular point, or two cooperating sites that each look fine alone — NOT something ordinary use would expose at once (if a trivial smoke test of the feature fails, the change is too blunt).
 Prefer changes in different mechanisms/files for the {k} patches. Read the relevant code first and think about which invariants the property rests on.
 
-For each change write a demonstration: a small Rust integration test file (e.g. {wt}/des/tests/mut_demo.rs or in the crate the change belongs to) or a tiny example program that uses only the crates' public API, which FAILS (assert failure / panic / wrong output) WITH the change and PASSES WITHOUT it. Verify both directions yourself (use `git stash`/`git checkout` inside your worktree only). Also confirm (a) and (b) with the change applied (without your demo file, which is not part of the patch).
+For each change write a demonstration: a small Rust integration test file (e.g. {wt}/des/tests/mut_demo.rs or in the crate the change belongs to) or a tiny example program that uses only the crates' public API, which FAILS (assert failure / panic / wrong output) WITH the change and PASSES WITHOUT it. Verify both directions yourself (inside your worktree only; do NOT use `git stash` — the stash is shared by all worktrees of the repository and other people are working in theirs; use `git diff > x.diff`, `git apply -R x.diff`, `git apply x.diff` instead). Also confirm (a) and (b) with the change applied (without your demo file, which is not part of the patch).
 
 Deliverables (write them under {wt}/out/, create the directory): for i = 1..{k}:  `m{{i}}.diff` (output of `git diff` for ONLY the source change, relative to HEAD, applicable with `git apply` from the repository root; must not include the demo), `m{{i}}_demo.rs` (the demonstration, with a comment on top saying where to put it and how to run it), `m{{i}}.json` with fields {{"property": "{pid}", "summary": one sentence what was changed, "why_it_breaks": ..., "needs": what specific condition is needed for it to manifest, "files": [...], "demo_cmd": the exact command to run the demo, "verified": {{"compiles": true/false, "tests_pass": "N/221", "demo_fails_with_change": true/false, "demo_passes_without": true/false}}}}. Keep the worktree in place when you finish (the lead will collect the files and remove it) but delete its build output: rm -rf {wt}/target.
 
